@@ -539,6 +539,14 @@ class AutoEvaluator(Evaluator):
                     if isinstance(t, ast.Subscript) and isinstance(t.value, ast.Name):
                         self.buffers.add(t.value.id)
 
+    erase_T = False          # matrices as commuting symbols: `.T` is the matrix itself
+
+    def stmt(self, st):
+        if isinstance(st, ast.Expr) and isinstance(st.value, ast.Call) and not self.done:
+            self.ev(st.value)          # a call statement: recorded in self.calls (and followed when it is in the inline table)
+            return
+        return super().stmt(st)
+
     def _index_value(self, sl):
         if isinstance(sl, ast.Tuple):
             return F.fn("tuple", *[self._index_value(e) for e in sl.elts])
@@ -592,6 +600,8 @@ class AutoEvaluator(Evaluator):
             if is_unknown(v) or isinstance(v, tuple):
                 return v if is_unknown(v) else Unknown("not of a tuple")
             return F.fn("not" if isinstance(node.op, ast.Not) else "invert", need(v))
+        if isinstance(node, ast.Attribute) and self.erase_T and node.attr == "T":
+            return self._ev(node.value)
         if isinstance(node, ast.Attribute):
             d = dotted(node)
             if d is not None:
@@ -625,13 +635,84 @@ class AutoEvaluator(Evaluator):
             return F.fn("idx", need(base), ix)
         return super()._ev(node)
 
+    # ---- optional interprocedural step: a call to a function whose definition the rule supplied (`inline` = {dotted name: FunctionDef}) is
+    # evaluated on the argument values, so that extracting a block into a private helper, or inlining one, does not change the value.
+    inline = None
+    inline_depth = 0
+
+    def _inline_call(self, node):
+        name = dotted(node.func)
+        fn = self.inline.get(name) if self.inline else None
+        if fn is None or self.inline_depth >= 4:
+            return NotImplemented
+        a = fn.args
+        params = [x.arg for x in a.posonlyargs + a.args]
+        if params and params[0] in ("self", "cls") and name and "." in name:
+            params = params[1:]
+        if a.vararg or a.kwarg or any(isinstance(x, ast.Starred) for x in node.args) or any(k.arg is None for k in node.keywords):
+            return NotImplemented
+        if len(node.args) > len(params):
+            return NotImplemented
+        env = {}
+        for p_, x in zip(params, node.args):
+            env[p_] = self.ev(x)
+        kwonly = [x.arg for x in a.kwonlyargs]
+        for k in node.keywords:
+            if k.arg not in params and k.arg not in kwonly:
+                return NotImplemented
+            env[k.arg] = self.ev(k.value)
+        # defaults
+        dflt = dict(zip(params[::-1], (a.defaults or [])[::-1]))
+        for p_ in params:
+            if p_ not in env:
+                if p_ in dflt:
+                    env[p_] = self.ev(dflt[p_])
+                else:
+                    return NotImplemented
+        for p_, d in zip(kwonly, a.kw_defaults):
+            if p_ not in env and d is not None:
+                env[p_] = self.ev(d)
+        # names of the caller that are not rebound by the callee stay visible only as symbols (a callee reads its own scope)
+        sub = AutoEvaluator(fn, env=env, cond=self.cond, src=self.src, funcs=None, subscript=self.subscript, call=self.call_hook,
+                            binop=self.binop_hook)
+        sub.inline = self.inline
+        sub.inline_depth = self.inline_depth + 1
+        sub.seq = self.seq
+        sub.run(fn.body)
+        # the callee's calls and stores are part of the caller's trace
+        self.calls.extend(sub.calls)
+        self.call_seq.extend(sub.call_seq)
+        self.cells.extend(sub.cells)
+        self.cell_seq.extend(sub.cell_seq)
+        self.seq = sub.seq
+        if len(sub.returns) != 1:
+            return NotImplemented if not sub.returns else Unknown(f"several returns in inlined {name}")
+        v = sub.returns[0][0]
+        if v is None:
+            return F.sym("None")
+        # a returned buffer of the callee: its creating expression stands for it when nothing was stored into it
+        if not is_unknown(v) and not isinstance(v, tuple):
+            for b in sub.buffers:
+                if need(v).equals(F.sym(b)) and not any(c[0] == b for c in sub.cells) and f"<init:{b}>" in sub.env:
+                    v = sub.env[f"<init:{b}>"]
+        return v
+
     def _call(self, node):
+        if self.inline:
+            r = self._inline_call(node)
+            if r is not NotImplemented:
+                return r
         self._record_call(node)
         r = super()._call(node)
         if not is_unknown(r):
             return r
         name = dotted(node.func)
         args = []
+        if name is not None and isinstance(node.func, ast.Attribute) and isinstance(node.func.value, ast.Name) \
+                and node.func.value.id in self.env and node.func.value.id not in self.buffers \
+                and not is_unknown(self.env[node.func.value.id]) and not isinstance(self.env[node.func.value.id], tuple):
+            # a method of a local whose value is known: the receiver is that value, not the spelling of the local's name
+            name = None
         if name is None:
             if isinstance(node.func, ast.Attribute):
                 b = self._ev(node.func.value)
